@@ -771,6 +771,29 @@ def order_preserved(prog: Program) -> RuleResult:
 # parsed mappings come from the dictionary alone
 
 
+# methods that edit a tree (ete3's own and the model's): none may run on a tree between parsing and storing it
+TREE_EDITORS = {
+    "add_feature", "add_features", "del_feature", "swap_children", "ladderize", "sort_descendants", "label_internal",
+    "resolve_polytomy", "unroot", "set_outgroup", "prune", "delete", "detach", "remove_child", "add_child", "standardize",
+}
+
+
+def _name_template(expr: ast.AST) -> Optional[Tuple[str, str]]:
+    """(prefix, counter expression) of `f"P{n}"`, `"P" + str(n)`, `"P%d" % n`, `"P{}".format(n)`"""
+    if isinstance(expr, ast.JoinedStr) and len(expr.values) == 2 and isinstance(expr.values[0], ast.Constant) and isinstance(expr.values[1], ast.FormattedValue) and expr.values[1].format_spec is None:
+        return str(expr.values[0].value), ast.unparse(expr.values[1].value)
+    if isinstance(expr, ast.BinOp) and isinstance(expr.op, ast.Add) and isinstance(expr.left, ast.Constant) and isinstance(expr.left.value, str):
+        r = expr.right
+        if isinstance(r, ast.Call) and dotted(r.func) == "str" and len(r.args) == 1:
+            return expr.left.value, ast.unparse(r.args[0])
+    if isinstance(expr, ast.BinOp) and isinstance(expr.op, ast.Mod) and isinstance(expr.left, ast.Constant) and isinstance(expr.left.value, str) and expr.left.value.endswith(("%d", "%s")) and expr.left.value.count("%") == 1:
+        r = expr.right.elts[0] if isinstance(expr.right, ast.Tuple) and len(expr.right.elts) == 1 else expr.right
+        return expr.left.value[:-2], ast.unparse(r)
+    if isinstance(expr, ast.Call) and isinstance(expr.func, ast.Attribute) and expr.func.attr == "format" and isinstance(expr.func.value, ast.Constant) and isinstance(expr.func.value.value, str) and expr.func.value.value.endswith("{}") and expr.func.value.value.count("{") == 1 and len(expr.args) == 1:
+        return expr.func.value.value[:-2], ast.unparse(expr.args[0])
+    return None
+
+
 def field_source(prog: Program) -> RuleResult:
     res = RuleResult(
         "FIELD-SOURCE",
@@ -848,21 +871,22 @@ def field_source(prog: Program) -> RuleResult:
     # parsing does not decorate the trees it builds
     for cname in ("ReconciliationInput", "SuperReconciliationInput", "ReconciliationOutput", "SuperReconciliationOutput"):
         cls = prog.cls(model, cname)
-        fn = method_def(cls, "_from_dict")
-        if fn is None:
-            continue
-        construct = f"{model}:{cname}._from_dict/tree-as-written"
-        deco = [
-            c for c in walk_no_nested(fn)
-            if isinstance(c, ast.Call) and isinstance(c.func, ast.Attribute) and c.func.attr in ("add_feature", "add_features", "del_feature", "swap_children", "ladderize", "sort_descendants")
-        ] + [
-            st for st in walk_no_nested(fn)
-            if isinstance(st, ast.Assign) and any(isinstance(t, ast.Attribute) and t.attr in ("name", "dist", "support") for t in st.targets)
-        ]
-        if deco:
-            res.fail(construct, f"`{short(deco[0], 70)}` alters the tree that was just parsed: writing it again does not reproduce the Newick string that was read", mod, deco[0])
-        else:
-            res.ok(construct, "the parsed trees are left as written")
+        for mname in ("_from_dict", "from_dict"):
+            fn = method_def(cls, mname)
+            if fn is None:
+                continue
+            construct = f"{model}:{cname}.{mname}/tree-as-written"
+            deco = [
+                c for c in walk_no_nested(fn)
+                if isinstance(c, ast.Call) and isinstance(c.func, ast.Attribute) and c.func.attr in TREE_EDITORS
+            ] + [
+                st for st in walk_no_nested(fn)
+                if isinstance(st, ast.Assign) and any(isinstance(t, ast.Attribute) and t.attr in ("name", "dist", "support") for t in st.targets)
+            ]
+            if deco:
+                res.fail(construct, f"`{short(deco[0], 70)}` alters the tree that was just parsed: writing it again does not reproduce the Newick string that was read", mod, deco[0])
+            else:
+                res.ok(construct, "the parsed trees are left as written")
     res.floor(4)
     return res
 
@@ -1262,7 +1286,7 @@ def label_guard(prog: Program) -> RuleResult:
                 if not (isinstance(prev, ast.While) and isinstance(prev.test, ast.Compare) and len(prev.test.ops) == 1):
                     continue
                 t = prev.test
-                if not (isinstance(t.ops[0], ast.In) and ast.dump(t.left) == ast.dump(value)):
+                if not (isinstance(t.ops[0], ast.In) and (ast.dump(t.left) == ast.dump(value) or (_name_template(value) is not None and _name_template(t.left) == _name_template(value)))):
                     continue
                 incr = [n for n in prev.body if isinstance(n, ast.AugAssign) and dotted(n.target) == counter and isinstance(n.op, ast.Add)]
                 if not incr:
